@@ -346,9 +346,12 @@ def vary_forms(c, a, rnd, tracked):
 
 
 def with_flavour(lines, fl):
-    """The same script for another build flavour: the Reset lines name the flavour (replays need it)."""
+    """The same script for another build flavour: the Reset lines name the flavour (replays need it).  In the all-trivial
+    alternative set the fuse also applies to the value constructor / assignment of the trivially destructible alternative 3
+    ("tt": CanThrow(3, "value") of VariantLifetime.tla, which L2 models since round 4)."""
     r = reset_line(fl)
-    return [r if l["op"] == "Reset" else l for l in lines]
+    tt = FLAVOURS[fl]["set"] == "triv"
+    return [r if l["op"] == "Reset" else (dict(l, tt=1) if tt and l["op"] == "Begin" else l) for l in lines]
 
 
 def build_tour(edges, rnd, tracked, exec_len=150, limit=None):
@@ -803,9 +806,18 @@ def run(ctx):
                                       "abstract_states": len({skey(e["p"]) for e in edges}),
                                       "by_outcome": {k: sum(1 for e in edges if e["r"] == k) for k in ("none", "injected", "bad_variant_access")},
                                       "by_call": {c: sum(1 for e in edges if e["c"] == c) for c in sorted({e["c"] for e in edges})}}
+        # round 4: what TLC enumerated of the payload-class / configuration axes (partially ordered payload values, throwing
+        # constructors in the all-trivially-destructible alternative set) - measured on the transitions the tour replays
+        ctx.notes["s2c_%s" % aset]["rel_on_unordered_value"] = sum(1 for e in edges if e["c"] == "Rel" and any(x["val"] == UNORD for x in e["p"]))
+        ctx.notes["s2c_%s" % aset]["valueless_pre_states"] = len({skey(e["p"]) for e in edges if any(x["s"] == "valueless" for x in e["p"])})
         ctx.log("S->C %s: %d call transitions enumerated by TLC (%d with distinct behaviour, %d abstract states); tour of %d calls (+%d navigation)"
                 % (aset, len(all_edges), len(edges), ctx.notes["s2c_%s" % aset]["abstract_states"], taken, nav))
 
+    nt = ctx.notes["s2c_triv"]
+    if nt["rel_on_unordered_value"] == 0 or nt["by_outcome"]["injected"] == 0 or nt["valueless_pre_states"] == 0:
+        raise MachineryError("vacuous model: set triv enumerates no relational operator on an unordered payload value (%d) / no throwing "
+                             "constructor of a trivially destructible alternative (%d) / no valueless state (%d)"
+                             % (nt["rel_on_unordered_value"], nt["by_outcome"]["injected"], nt["valueless_pre_states"]))
     # ---- scripts: (name, flavour, lines)
     scripts = []
     nch = 6 if q else 12
@@ -814,7 +826,7 @@ def run(ctx):
         t = tours[aset]
         if FLAVOURS[fl].get("tour", True) is False:
             continue                                   # (optimisation-level flavours run the random scripts only)
-        for i, ch in enumerate(chunk_by_reset(with_flavour(t["tour"], fl), 2 if aset == "triv" else nch)):
+        for i, ch in enumerate(chunk_by_reset(with_flavour(t["tour"], fl), nch)):
             scripts.append(("s2c-%s-%02d" % (fl, i), fl, ch))
         if t["cex"] and fl == aset:
             scripts.append(("l2-counterexample-" + aset, fl, [reset_line(fl)] + t["cex"]))
